@@ -74,7 +74,10 @@ def _name_for(nc, j, ext, root, rng, canaries):
     if nc == "dotslash":
         return rng.choice([f"./{base}", f"./dir{j}/{base}", f"dir{j}/./{base}", f"./dir{j}/./sub/{base}"])
     if nc == "unicode":
-        return rng.choice([f"dossier é{j}/日本語 {base}", f"Ünï cødé {j} {base}", f"папка{j}/{base}"])
+        # incl. UTF-16 code units whose LOW byte is 0 right after an ASCII character (U+0100, combining U+0300 /
+        # U+0301 of NFD names, CJK U+4E00): byte-wise scans for a "\0\0" name terminator trip over them
+        return rng.choice([f"dossier é{j}/日本語 {base}", f"Ünï cødé {j} {base}", f"папка{j}/{base}",
+                           f"d\u0100{j}/a\u0300e\u0301 {base}", f"x\u4e00\u4e00{j} {base}", f"nfd a\u0300 {j}/\u4e00 {base}"])
     if nc == "absolute":
         p = os.path.join(root, "host", f"abs{j}_{base}")
         host(p)
@@ -92,7 +95,17 @@ def _name_for(nc, j, ext, root, rng, canaries):
     if nc == "dotdotIn":
         return f"d{j}/../{base}"
     if nc == "backslash":
-        return rng.choice([f"d{j}\\{base}", f"..\\{base}", f"\\{base}", f"\\\\srv\\share\\{base}"])
+        v = rng.randrange(7)
+        if v == 4:          # backslash-separated dot-dot segments: one harmless POSIX file name - unless somebody
+            host(os.path.join(root, "tmp", f"bs{j}_{base}"))        # turns the backslashes into separators
+            return f"docs{j}\\..\\..\\bs{j}_{base}"
+        if v == 5:
+            host(os.path.join(root, "host", f"bs{j}_{base}"))
+            return f"docs{j}\\..\\..\\..\\host\\bs{j}_{base}"
+        if v == 6:          # mixed separators
+            host(os.path.join(root, "tmp", f"bs{j}_{base}"))
+            return f"d{j}/x\\..\\..\\..\\bs{j}_{base}"
+        return [f"d{j}\\{base}", f"..\\{base}", f"\\{base}", f"\\\\srv\\share\\{base}"][v]
     if nc == "drive":
         return rng.choice([f"C:\\{base}", f"C:/{base}", f"c:{base}"])
     if nc == "empty":
@@ -176,6 +189,7 @@ def concretise(members, root, rng, rich=False, limit=SMALL_LIMIT, tok0=1):
         else:
             raise ValueError(kind)
         c["ext"] = ext
+        c["tflag"] = rng.choice(["reg", "reg", "reg", "areg", "cont", "sparse"])      # tar only: type flag of a regular file
         name = out[-1]["name"] if dup else _name_for("plain" if nc == "dup" else nc, j, _case_ext(ext, rng), root, rng, canaries)
         if dup:
             pass
@@ -283,6 +297,28 @@ def _gzip_container(raw: bytes, level, mtime, name, extra) -> bytes:
     return bytes(out)
 
 
+def _tar_make_sparse(data: bytes, index: int) -> bytes:
+    """Turn member `index` of a GNU-format tar into a GNU sparse member ('S') whose map is one data block covering the
+    whole file (old GNU format 0.0: map in the header at 386, real size at 483)."""
+    with tarfile.open(fileobj=io.BytesIO(data), mode="r:") as rd:
+        ti = rd.getmembers()[index]
+    h = ti.offset_data - 512
+    b = bytearray(data)
+    blk = b[h:h + 512]
+    blk[156:157] = b"S"
+    blk[345:500] = b"\x00" * 155
+    blk[386:398] = b"%011o\x00" % 0
+    blk[398:410] = b"%011o\x00" % ti.size
+    blk[483:495] = b"%011o\x00" % ti.size
+    blk[148:156] = b" " * 8
+    blk[148:156] = b"%06o\x00 " % sum(blk)
+    b[h:h + 512] = blk
+    return bytes(b)
+
+
+TAR_FLAGS = {"reg": tarfile.REGTYPE, "areg": tarfile.AREGTYPE, "cont": tarfile.CONTTYPE}
+
+
 def _write_plain_tar(members, fmt) -> bytes:
     buf = io.BytesIO()
     with tarfile.open(fileobj=buf, mode="w", format=fmt) as tf:
@@ -307,9 +343,17 @@ def _write_plain_tar(members, fmt) -> bytes:
                 ti.type = tarfile.FIFOTYPE
                 tf.addfile(ti)
             else:
+                # every one of these type flags is a regular file (tarfile.TarInfo.isreg): '0', NUL (old V7 tar),
+                # '7' (contiguous file), 'S' (GNU sparse; patched in below, GNU header format only)
+                ti.type = TAR_FLAGS.get(m.get("tflag", "reg"), tarfile.REGTYPE)
                 ti.size = len(m["data"])
                 tf.addfile(ti, io.BytesIO(m["data"]))
-    return buf.getvalue()
+    data = buf.getvalue()
+    if fmt == tarfile.GNU_FORMAT:
+        for i, m in enumerate(members):
+            if m.get("tflag") == "sparse" and m["kind"] != "dir" and not m.get("tar") and len(m["data"]) > 0:
+                data = _tar_make_sparse(data, i)
+    return data
 
 
 def build_tar(members, comp="", corrupt=None, fmt=None, params=None) -> bytes:
@@ -653,6 +697,25 @@ def run_history(read_archive, data, apath, hist, lookup, owner=None, directs=Non
     g.clear()
 
 
+def tree(root, skip=()):
+    """Every file and directory below root (except the given directories) with size and content hash."""
+    out = {}
+    skip = {os.path.realpath(s) for s in skip}
+    for d, dirs, files in os.walk(root):
+        dirs[:] = [x for x in dirs if os.path.realpath(os.path.join(d, x)) not in skip]
+        for x in dirs:
+            out[os.path.relpath(os.path.join(d, x), root) + "/"] = "dir"
+        for x in files:
+            p = os.path.join(d, x)
+            try:
+                st = os.lstat(p)
+                with open(p, "rb") as f:
+                    out[os.path.relpath(p, root)] = f"{st.st_size}:{hashlib.sha256(f.read(1 << 20)).hexdigest()}"
+            except OSError:
+                out[os.path.relpath(p, root)] = "unreadable"
+    return out
+
+
 def snapshot(paths):
     out = {}
     for p in paths:
@@ -726,6 +789,7 @@ def run_case(case, wroot, audit=True):
                     lookup.setdefault(key, []).append(j)
             owner = {t: j for j, m in enumerate(ms, start=1) for t in m.get("toks", [])}
             before = snapshot(cpaths)
+            tree0 = tree(root) if audit else None
             STATE.update(ev=[], roots=[], outside=[], err="")
             STATE["on"] = audit
             try:
@@ -737,7 +801,14 @@ def run_case(case, wroot, audit=True):
                                                                          if os.path.dirname(p) == os.path.join(root, "tmp")})
             ev = list(STATE["ev"])
             if audit:
-                ev.append({"a": "Final", "left": len(left), "hostchg": 0 if snapshot(cpaths) == before else 1})
+                # the file system itself: anything created / changed / removed in the sandbox outside the private
+                # temporary directories (which must be gone: `left`)
+                tree1 = tree(root, skip=STATE["roots"])
+                changed = sorted(k for k in set(tree0) | set(tree1) if tree0.get(k) != tree1.get(k))
+                if changed:
+                    STATE["outside"].append("changed on disk: " + ", ".join(changed[:3]))
+                ev.append({"a": "Final", "left": len(left),
+                           "hostchg": 0 if snapshot(cpaths) == before and not changed else 1})
                 for x in left:
                     shutil.rmtree(os.path.join(root, "tmp", x), ignore_errors=True)
             hdr = {"fmt": case["fmt"], "apath": apath, "hist": case["hist"],
